@@ -182,6 +182,24 @@ func checkTree(c *vh.Ctx, mu *sync.Mutex, cx context, e *E, class string) (minTo
 		fail("an expression without an unparenthesised > or | was parsed as a print redirection", pm.String(), want)
 	case strip(pm.tree).String() != strip(pf.tree).String():
 		fail("minimally and fully parenthesised spellings group differently", strip(pm.tree).String(), strip(pf.tree).String())
+	default:
+		// white space between tokens is not part of the grammar: tabs, runs of blanks and backslash-newline continuations in
+		// place of the single blanks must give the same tree (seeded C04-p4: a continuation no longer counted as space, so
+		// `x \<newline>(y)` became a call)
+		for salt := uint32(1); salt <= 2; salt++ {
+			vText := tokTextSep(minToks, salt)
+			if vText == minText {
+				continue
+			}
+			pv := realParse(cx, vText)
+			if pv.err != "" || pv.redir != pm.redir || strip(pv.tree).String() != strip(pm.tree).String() {
+				mu.Lock()
+				c.Fail(vh.Failure{Kind: "oracle", What: "the same tokens separated by other white space (tab, blanks, backslash-newline) group differently or are rejected",
+					Case: oracleCase{cx.name, want, cx.pre + vText + cx.post, cx.pre + minText + cx.post, class}, Got: pv.String(), Want: pm.String()})
+				mu.Unlock()
+				break
+			}
+		}
 	}
 	return
 }
